@@ -19,7 +19,6 @@ import (
 	"time"
 
 	"github.com/slackhq/nebula/cert"
-	"github.com/slackhq/nebula/cert/p256"
 	cl "verifharness/certlib"
 	"verifharness/hlib"
 )
@@ -37,7 +36,20 @@ func fpTok(c cert.Certificate) string {
 	return fp
 }
 
+// fp2Tok: the fingerprint of the other signature form, computed independently of the implementation for real
+// certificates (the implementation's own value is what VerifyCertificate uses; the two must agree, and the
+// model runs on the independent one so that a wrong CalculateAlternateFingerprint / Copy shows as a verdict).
 func fp2Tok(c cert.Certificate) string {
+	if _, stub := c.(*cl.Stub); !stub {
+		fp2, err := cl.TwinFingerprint(c)
+		if err != nil {
+			return "!"
+		}
+		if fp2 == "" {
+			return "-"
+		}
+		return fp2
+	}
 	fp2, err := cert.CalculateAlternateFingerprint(c)
 	if err != nil {
 		return "!"
@@ -426,9 +438,21 @@ func (g *genState) realLeaf(ca *caInfo) {
 		return
 	}
 	g.exercise(c, hlib.Hex(raw), cl.FieldsOf(c), ca)
+	// blocklisting the other signature form must reject this one (full and cached path)
+	if c.Curve() == cert.Curve_P256 {
+		if fp2 := fp2Tok(c); fp2 != "-" && fp2 != "!" {
+			mid := cl.Ns(c.NotBefore().Add(c.NotAfter().Sub(c.NotBefore()) / 2))
+			tailv := fmt.Sprintf("%s %s %s %s %s", hlib.Hex(raw), cl.Desc(c), fpTok(c), fp2, sigTok(g.pool, c))
+			g.op("verify 3 %s %s", mid, tailv)
+			g.block(fp2)
+			g.op("cached 3 %s", mid)
+			g.op("verify 2 %s %s", mid, tailv)
+			g.unblock()
+		}
+	}
 	// the other signature form of the same content is a different certificate with the twin fingerprint
 	if c.Curve() == cert.Curve_P256 && r.Chance(1, 2) {
-		if tw, err := p256.Swap(c.Signature()); err == nil {
+		if tw, err := cl.SwapSig(c.Signature()); err == nil {
 			traw := cl.Craft(cl.FieldsOf(c), nil, tw)
 			if tc, err := cl.Decode(f.Version, traw); err == nil {
 				if r.Bool() {
